@@ -83,6 +83,14 @@ class Shaper:
                 self.expr(a, out)
             if k == 'mcall':
                 self.expr(e.get('o'), out)
+            # a unit-private helper (static function) that is handed the streams: its traffic is
+            # part of this function's shape, exactly as if its body stood here
+            g = self.prog.funcs.get(e.get('fid')) if e.get('fid') else None
+            if g is not None and g.get('internal') and g.get('body') and getattr(self, 'depth', 0) < 3:
+                sub = Shaper(self.prog, g, self.swap)
+                sub.depth = getattr(self, 'depth', 0) + 1
+                out.extend(x for x in sub.stmt(g['body']) if x != '!')
+                return
             # sub-protocol: a library function that is handed one of the peer streams
             passes = any(isinstance(a, dict) and a.get('k') == 'var' and (a['id'] in self.ins or a['id'] in self.outs) for a in e.get('a', []))
             if passes and e.get('fid') and (e['fid'] in self.prog.funcs or e['fid'] in self.prog.decls):
@@ -117,6 +125,20 @@ class Shaper:
                 return pre + (self.stmt(s['t']) if v else self.stmt(s.get('e')))
             t = self.stmt(s['t'])
             e = self.stmt(s.get('e'))
+            # `if (ok) ok = next_step(...)`: a verdict flag gates the rest of the protocol; the
+            # branch not taken is the error continuation and carries no traffic
+            cc = c
+            neg = False
+            while isinstance(cc, dict) and (cc.get('k') == 'cast' or (cc.get('k') == 'un' and cc.get('op') == '!')):
+                if cc.get('k') == 'un':
+                    neg = not neg
+                    cc = cc['a'][0]
+                else:
+                    cc = cc.get('e')
+            if isinstance(cc, dict) and cc.get('k') == 'var' and cc.get('t') in ('bool', 'const bool') and not cc.get('p'):
+                live, dead = (e, t) if neg else (t, e)
+                if not [x for x in dead if x != '!']:
+                    return pre + [x for x in live if x != '!'] + (['!'] if live and live[-1] == '!' else [])
             t_end = bool(t) and t[-1] == '!'
             e_end = bool(e) and e[-1] == '!'
             tt = [x for x in t if x != '!']
